@@ -284,9 +284,9 @@ Definition escaped_version_name_token (p : pos) (tok : bytes) : bool :=
   main_pos_borrowed p && has_escape tok.
 
 (** HISTORICAL main reader, before fix bb69bb9 (manifest / state digests and logical
-    paths were &str / Vec<&str>).  NOT the current code; kept under its old name because
+    paths were &str / Vec<&str>).  NOT the current code; kept only because
     the `..._before_fix` notes of Props/C10.v refer to it. *)
-Definition pos_borrowed (p : pos) : bool :=
+Definition main_pos_borrowed_before_fix (p : pos) : bool :=
   match p with
   | PHead | PVersionKey | PManifestDigest | PStateDigest | PLogicalPath => true
   | _ => false
@@ -295,10 +295,10 @@ Definition pos_borrowed (p : pos) : bool :=
 (** HISTORICAL validator reader, src/ocfl/validate/serde.rs before fix 2f36fc5:
     id, digestAlgorithm, head, contentDirectory, created, address : next_value::<&str>;
     manifest / state values : Vec<&str>, their keys and the version keys : next_key to &str;
-    type, message, name : String.  NOT the current code; kept under its old name because
-    C07's and C10's historical notes refer to it.  The current validator reads EVERY
+    type, message, name : String.  NOT the current code; kept only because
+    the `..._before_fix` notes of Props/C10.v refer to it.  The current validator reads EVERY
     position through an owned string, see [val_read_pos] below. *)
-Definition val_pos_borrowed (p : pos) : bool :=
+Definition val_pos_borrowed_before_fix (p : pos) : bool :=
   match p with
   | PType | PMessage | PUserName => false
   | _ => true
@@ -385,13 +385,13 @@ Definition main_read_pos (p : pos) (t : bytes) : option bytes :=
 Definition val_read_pos (p : pos) (t : bytes) : option bytes := decode_string t.
 
 (** HISTORICAL readers (before bb69bb9 / 2f36fc5), NOT the current code *)
-Definition rocfl_read_pos (p : pos) (t : bytes) : option bytes :=
-  match read_with (pos_borrowed p) t with
+Definition main_read_pos_before_fix (p : pos) (t : bytes) : option bytes :=
+  match read_with (main_pos_borrowed_before_fix p) t with
   | Some s => post_visit p s
   | None => None
   end.
-Definition validator_read_pos (p : pos) (t : bytes) : option bytes :=
-  read_with (val_pos_borrowed p) t.
+Definition val_read_pos_before_fix (p : pos) (t : bytes) : option bytes :=
+  read_with (val_pos_borrowed_before_fix p) t.
 
 (** a value the position's visitor maps to itself *)
 Definition pos_value_ok (p : pos) (s : bytes) : bool :=
